@@ -29,8 +29,12 @@ OBLIGATIONS = [
     "SkVerif.C17.forest_proba_entry",
     "SkVerif.C17.forest_ragged_members_rejected",
     "SkVerif.C17.forest_narrow_members_not_distribution",
-    "SkVerif.C17.votes_normalised_is_distribution_partial",
-    "SkVerif.C17.boss_votes_is_distribution_partial",
+    "SkVerif.C17.stsf_aligned_avg_is_distribution",
+    "SkVerif.C17.weighted_votes_is_distribution",
+    "SkVerif.C17.boss_votes_is_distribution",
+    "SkVerif.C17.member_weight_pos",
+    "SkVerif.C17.votes_normalised_is_distribution",
+    "SkVerif.C17.window_check_iff_search_nonempty",
     "SkVerif.C17.votes_empty_ensemble_not_distribution",
     "SkVerif.C17.votes_zero_weight_not_distribution",
     "SkVerif.C17.indiv_one_hot_is_distribution",
